@@ -1,2 +1,138 @@
-// Package c20 is the check for property C20 (see DESIGN.md section 3).
+// Package c20 is the check for property C20: exit status and every diagnostic format tell the same
+// verdict.
+//
+// Bounded-exhaustive exploration of the real code at two seams:
+//
+//	A  bufanalysis.NewFileAnnotationSet + PrintFileAnnotationSet, driven directly
+//	   A1 every (file, message) pair over a fragment alphabet of hostile texts, as a one-annotation set
+//	   A2 every start/end position over {0,1,12}^4 x file kind x type/message/plugin presence
+//	   A3 every ordered tuple (with repetition) of <= 3 annotations from a colliding pool
+//	   each set rendered in all five formats, each rendering parsed back by the independent parsers of
+//	   refannot.go and compared with the reference model (refSortDedupe + agree).
+//	B  the in-process CLI: build, lint, breaking --against, format --exit-code [-d], each x every
+//	   --error-format (+ config-ignore-yaml for lint), on scratch workspaces with every subset of <= 3
+//	   planted problems, on hostile input directory names, and on operational errors.
 package c20
+
+import (
+	"context"
+	"os"
+	"sort"
+	"time"
+
+	"github.com/bufbuild/bufverif/internal/evid"
+)
+
+func init() {
+	evid.Register(&evid.Check{ID: "C20", Level: "exploration", Run: run, QuickBudget: 85 * time.Second, ThoroughBudget: 14 * time.Minute})
+}
+
+func run(r *evid.Run) {
+	r.Rule("A: every annotation set of three explicit spaces (A1 all file x message strings of <=3 fragments over the hostile alphabets, one annotation; " +
+		"A2 all positions {0,1,12}^4 x file kind x type/message/plugin presence; A3 all ordered tuples with repetition of <=3 annotations from a colliding pool) " +
+		"is rendered by PrintFileAnnotationSet in all 5 formats and each rendering is parsed back by an independent parser and compared with the reference list; " +
+		"B: every subset of <=3 planted problems (quick: <=2 plus the triples over one plant per kind) as a scratch workspace x every command x every --error-format through the in-process CLI, " +
+		"plus hostile directory names and operational errors. An evaluation is one rendering parsed back (A) or one CLI run (B). " +
+		"Distinct non-trivial = distinct A1 pair with at least one non-'a' fragment, distinct A2 case, distinct A3 tuple of >=2 annotations, distinct (directory name, planted set) workspace, distinct (operational error, workspace).")
+	r.Assume("text and msvs are line grammars without any escape mechanism: a newline inside a file name or message cannot be expressed, such sets are not compared in these two formats (counted as line_grammar_skipped)")
+	r.Assume("an unknown position (<=0) may be rendered as absent, 0 or 1; github-actions may omit col/endLine/endColumn when the line (resp. end line) is unknown")
+	r.Assume("an empty message or empty rule ID is degenerate ('should never happen' in the printers): placeholders such as FAILURE are accepted")
+	r.Assume("`buf format` on a file with a syntax error prints `Failure: <file>:<line>:<col>: syntax error` and exits 1 whatever --error-format says; the property's list of status-100 situations does not include it, so only 'non-zero' is demanded there")
+	r.Assume("the github-actions reference parser is the runner's documented algorithm (first '::' ends the properties, split at ',', unescape %25 %0D %0A and, for properties, %3A %2C)")
+	r.Assume("texts are valid UTF-8; control characters other than CR/LF and invalid UTF-8 (which JSON and XML cannot carry losslessly) are out of the enumerated alphabet")
+
+	ctx := context.Background()
+	dst := &directStats{}
+	t0 := time.Now()
+	phase := func(name string) {
+		r.Set("wall_s_"+name, time.Since(t0).Seconds())
+		t0 = time.Now()
+	}
+	hostileTexts(r, dst)
+	phase("A1")
+	positionGrid(r, dst)
+	phase("A2")
+	setOrder(r, dst)
+	phase("A3")
+
+	perFormat := map[string]int64{}
+	for i, f := range formats {
+		perFormat[f] = dst.perFormat[i].Load()
+	}
+	r.Set("A_sets", dst.sets.Load())
+	r.Set("A_renderings_parsed_back_per_format", perFormat)
+	r.Set("A_line_grammar_skipped", dst.lineGrammarSkipped.Load())
+	r.Set("A1_pairs_needing_json_escape", dst.needJSONEscape.Load())
+	r.Set("A1_pairs_needing_xml_escape", dst.needXMLEscape.Load())
+	r.Set("A1_pairs_needing_workflow_escape", dst.needWorkflowEscape.Load())
+	r.Set("A2_cases_with_unknown_position", dst.unknownPos.Load())
+	r.Set("A3_tuples_deduplicated", dst.deduped.Load())
+	r.Set("A3_tuples_reordered", dst.reordered.Load())
+	r.Set("A3_tuples_with_several_junit_suites", dst.multiSuite.Load())
+	r.Set("F7_file_property_cases", dst.f7File.Load())
+	r.Set("F7_message_cases", dst.f7Msg.Load())
+	for i, f := range formats {
+		if dst.perFormat[i].Load() == 0 {
+			r.Incomplete("vacuous: no rendering compared for format " + f)
+		}
+	}
+	if dst.deduped.Load() == 0 || dst.reordered.Load() == 0 || dst.multiSuite.Load() == 0 {
+		r.Incomplete("vacuous: set-order space exercised no de-duplication / no reordering / no multi-suite JUnit document")
+	}
+	if dst.needJSONEscape.Load() == 0 || dst.needXMLEscape.Load() == 0 || dst.needWorkflowEscape.Load() == 0 {
+		r.Incomplete("vacuous: no text needing escaping")
+	}
+	if r.Expired() {
+		return
+	}
+
+	scratch, err := os.MkdirTemp("", "verif-c20-")
+	if err != nil {
+		r.Incomplete("scratch: " + err.Error())
+		return
+	}
+	defer os.RemoveAll(scratch)
+	cst := &cliStats{}
+	cliPlanted(ctx, r, cst, scratch)
+	phase("B_planted")
+	cliOperational(ctx, r, cst, scratch)
+	phase("B_operational")
+
+	r.Set("B_cli_runs", cst.runs.Load())
+	r.Set("B_workspaces", cst.workspaces.Load())
+	r.Set("B_workspaces_by_number_of_planted_problems", []int64{cst.byPlanted[0].Load(), cst.byPlanted[1].Load(), cst.byPlanted[2].Load(), cst.byPlanted[3].Load()})
+	r.Set("B_runs_exit_0", cst.exit0.Load())
+	r.Set("B_runs_exit_100", cst.exit100.Load())
+	r.Set("B_runs_exit_other", cst.exitOther.Load())
+	r.Set("B_operational_runs", cst.opRuns.Load())
+	r.Set("B_annotations_compared_with_json", cst.annotationsCompared.Load())
+	r.Set("B_annotations_without_file", cst.noFileAnnotations.Load())
+	r.Set("B_format_runs_clean", cst.formatClean.Load())
+	r.Set("B_format_runs_diff", cst.formatDiff.Load())
+	r.Set("B_format_runs_syntax_error", cst.formatParseError.Load())
+	r.Set("B_config_ignore_yaml_compared", cst.configIgnoreYAML.Load())
+	r.Set("B_config_ignore_yaml_compile_errors", cst.configIgnoreYAMLCompile.Load())
+	r.Set("B_line_grammar_skipped", cst.lineGrammarSkipped.Load())
+	r.Set("B_F7_runs", cst.f7.Load())
+	cst.mu.Lock()
+	keys := make([]string, 0, len(cst.perCmdFormat))
+	for k := range cst.perCmdFormat {
+		keys = append(keys, k)
+	}
+	sort.Strings(keys)
+	per := map[string]int{}
+	for _, k := range keys {
+		per[k] = cst.perCmdFormat[k]
+	}
+	cst.mu.Unlock()
+	r.Set("B_runs_per_command_and_format", per)
+	if !r.Expired() {
+		if cst.exit0.Load() == 0 || cst.exit100.Load() == 0 || cst.exitOther.Load() == 0 {
+			r.Incomplete("vacuous: an exit-status class was never observed")
+		}
+		if cst.annotationsCompared.Load() == 0 || cst.noFileAnnotations.Load() == 0 || cst.configIgnoreYAML.Load() == 0 ||
+			cst.formatClean.Load() == 0 || cst.formatDiff.Load() == 0 || cst.formatParseError.Load() == 0 {
+			r.Incomplete("vacuous: a CLI clause was never exercised")
+		}
+	}
+}
